@@ -164,6 +164,8 @@ def judge_groups(ctx, groups, clause_filter, site_of=None, tags_of=None, trace_m
                           what='path=%s out=%s' % (v['path'], e['out']))
         for c, kind in cans:
             v = byid[c['id']]
+            if v['path'] == 'exc:Reset' and kind != 'range':
+                continue                      # Reset leaves most state UNKNOWN: only the range canary applies
             if kind == 'priv':
                 ctx.canary('confine' in v['v'] or 'range' in v['v'] or 'hosterror' in v['v'])
             elif v['path'].startswith('exact') or v['path'].startswith('exc') or kind == 'range':
